@@ -6,7 +6,13 @@ import (
 	"verifharness/emit"
 )
 
-// RunAll runs the profile `prop` with `budget` runs and emits its histories as cases of
+// corpusRan: the fixed corpus is the same in every profile; a campaign process that runs several
+// profiles (corrall -budget) executes it in the first one only.
+var corpusRan bool
+
+// RunAll runs the profile `prop` with `budget` GENERATED runs (the fixed corpus, 268 runs by now,
+// is not counted: with the former accounting a budget of 260 was used up by the corpus alone and
+// not a single generated history was executed) and emits its histories as cases of
 // check_all (Corr/CorrPipelineAll.v: agreement with the model and EVERY pipeline monitor on
 // every case). Used by the mutation campaign (tools/mutpipe.py), not by the registered checks.
 func RunAll(prop string, budget int) emit.Runner {
@@ -17,6 +23,8 @@ func RunAll(prop string, budget int) emit.Runner {
 		}
 		p.budget = budget
 		p.check = "check_all"
+		p.noCorpus = corpusRan
+		corpusRan = true
 		return runProfile(p, seed, tier, outDir)
 	}
 }
